@@ -19,7 +19,9 @@ Four parts, each a TLC run of spec/C15_Options.tla bound to the real code:
 All verdicts come from what TLC emitted; python only builds msdm objects, runs them and projects.
 """
 import math
+import os
 import random
+import sys
 import warnings
 from fractions import Fraction as F
 
@@ -44,6 +46,16 @@ BADR = 1000003                              # stands for a reward that is not an
 MDPF = ("N", "K", "PD", "GN", "GD", "ID", "abs", "avail", "P", "R", "p0")
 
 
+def stable_hashing():
+    """The semi-MDP seeds its simulations with hash((state, option, seed)); string labels make that depend
+    on the interpreter's hash seed.  ./check exports PYTHONHASHSEED=0 but its own interpreter has already
+    started, so the run (and its replays) would not be reproducible: restart once with the exported value."""
+    if sys.flags.hash_randomization and os.environ.get("PYTHONHASHSEED") == "0" and not os.environ.get("C15_REEXEC"):
+        os.environ["C15_REEXEC"] = "1"
+        sys.stdout.flush()
+        os.execv(sys.executable, [sys.executable] + sys.argv)
+
+
 def cfg(mode):
     return BASE + "".join(f"INVARIANT {i}\n" for i in INVS[mode])
 
@@ -51,7 +63,20 @@ def cfg(mode):
 def tlc(ctx, name, mode, batch, what, variant="intended"):
     res = run_tlc(ctx.workdir / name, MODULE, cfg(mode), files={"batch.json": batch},
                   env={"BATCH_FILE": "batch.json", "MODE": mode, "VARIANT": variant},
-                  coverage=(ctx.tier == "thorough"), continue_=(variant == "intended"))
+                  coverage=False, continue_=(variant == "intended"))   # -coverage 1 exhausts the heap on this module
+    if variant == "intended":
+        ac = ctx.extra.setdefault("machine_actions_in_emitted_behaviours", {})
+        for r in res.records:
+            k = r.get("kind")
+            if k in ("aug", "plan"):
+                n = sum(1 for c in COMPS if r["d"].get(c) != [] or c not in ("state_list", "action_list"))
+                for a, x in (("AugClass", 1), ("AugSet", n), ("AugInstantiate", 1), ("PlanStep", int(k == "plan"))):
+                    ac[a] = ac.get(a, 0) + x
+            elif k == "opt":
+                for a, x in (("OptStep", r["nst"]), ("OptBreak", 1), ("OptCheck", 1)):
+                    ac[a] = ac.get(a, 0) + x
+            elif k == "trace":
+                ac["Tr" + r["verdict"].capitalize()] = ac.get("Tr" + r["verdict"].capitalize(), 0) + 1
     ctx.add_tlc(res, what)
     if variant == "intended" and res.violated:
         raise TLCFailure(f"design-level invariant violated in {MODULE} ({mode}): {sorted(set(res.violated))}\n"
@@ -393,7 +418,7 @@ def judge_aug(ctx, cases, tamper=None):
         if 0 < len(ovr) < (7 if tab else 5) and (c["m"]["GN"], c["m"]["GD"]) != (1, 1):
             ctx.nontrivial("aug:" + digest(key))
         if k % 997 == 0:
-            ctx.sample({"part": "aug", "rep": c["rep"], "overridden": ovr, "base_discount": [c["m"]["GN"], c["m"]["GD"]],
+            ctx.sample(limit=1, obj={"part": "aug", "rep": c["rep"], "overridden": ovr, "base_discount": [c["m"]["GN"], c["m"]["GD"]],
                         "expected": {"discount": r["d"]["discount"], "absorbing": r["d"]["absorbing"], "state_list": r["d"]["state_list"]},
                         "real": {"discount": real.get("discount"), "absorbing": real.get("absorbing"), "state_list": real.get("state_list")}})
     return res
@@ -601,7 +626,7 @@ def judge_plan(ctx, cases, tamper=None):
         if g < 1 and any(vstar[s] != 0 for s in nonabs) and r["d"]["reward"] != m["R"]:
             ctx.nontrivial("plan:" + digest(c))
         if i % 37 == 1:
-            ctx.sample({"part": "plan", "rep": c["rep"], "option": o, "discount": [m["GN"], m["GD"]],
+            ctx.sample(limit=2, obj={"part": "plan", "rep": c["rep"], "option": o, "discount": [m["GN"], m["GD"]],
                         "vstar": [str(x) for x in vstar], "real_V": pl["V"], "real_discount": st.get("discount")})
     return res
 
@@ -893,8 +918,8 @@ def judge_opt(ctx, cases, tamper=None):
             ctx.validated += 1
             if n >= 2:
                 ctx.nontrivial("opt:" + digest([c["m"], c["term"], c["pol"], lim, hist]))
-        if k % 499 == 0:
-            ctx.sample({"part": "opt", "rep": c["rep"], "terminal": c["term"], "max_steps": lim, "history": hist,
+        if k % 499 == 3:
+            ctx.sample(limit=3, obj={"part": "opt", "rep": c["rep"], "terminal": c["term"], "max_steps": lim, "history": hist,
                         "must": must, "real": real})
     return res
 
@@ -956,6 +981,7 @@ def trace_world(case):
     _, RecPolicy, SimpleOption, RecPlanOption = option_classes()
     m = case["m"]
     rng = random.Random(digest(case["m"]) + digest(case["rep"]))
+    random.seed(digest(case["m"]))          # seed=None makes the semi-MDP draw its seed from the global generator
     b, _, _, _ = make_base(m, case["rep"], rng)
     if case["rep"]["actions_as"] == "list":
         wrap_method(b.mdp, "actions", lambda orig: (lambda s: list(orig(s))))
@@ -1228,8 +1254,8 @@ def judge_trace(ctx, cases, tamper=None, reals=None):
             ctx.validated += 1
             if ob["outcome"] == "dist" and (len(r["joint"]) >= 2 or any(x["t"] >= 2 for x in r["joint"])):
                 ctx.nontrivial("trace:" + digest([c["m"], od, ob["s0"], c["n"], c["seed"]]))
-        if k % 61 == 1:
-            ctx.sample({"part": "trace", "rep": c["rep"], "option": od, "s0": ob["s0"], "n": c["n"], "seed": c["seed"],
+        if k % 61 == 2:
+            ctx.sample(limit=5, obj={"part": "trace", "rep": c["rep"], "option": od, "s0": ob["s0"], "n": c["n"], "seed": c["seed"],
                         "verdict": r["verdict"], "reason": r["reason"], "tally": r["joint"], "reported": ob.get("joint")})
     return res
 
@@ -1253,10 +1279,11 @@ def asbuilt_runs(ctx, aug_cases, opt_cases):
 
 
 # ==============================================================================================
-SIZES = {"quick": dict(aug=16, plan=150, opt=60, trace=110), "thorough": dict(aug=160, plan=2400, opt=700, trace=1800)}
+SIZES = {"quick": dict(aug=24, plan=240, opt=200, trace=220), "thorough": dict(aug=400, plan=6000, opt=3000, trace=5000)}
 
 
 def run(ctx):
+    stable_hashing()
     import msdm.algorithms      # noqa: F401  (slow import, once)
     sz = SIZES[ctx.tier]
     ctx.rule = ("aug: (base instance x representation x subset of the 7 overridable components), non-trivial = a proper "
@@ -1289,6 +1316,7 @@ def run(ctx):
 
 
 def replay(ctx, case):
+    stable_hashing()
     import msdm.algorithms      # noqa: F401
     part, c = case["part"], case["case"]
     {"aug": judge_aug, "plan": judge_plan, "opt": judge_opt, "trace": judge_trace}[part](ctx, [c])
@@ -1296,14 +1324,17 @@ def replay(ctx, case):
 
 def selftest(ctx):
     """Binding demonstration: corrupt values returned by the real code, fields handed to msdm, logged events."""
+    stable_hashing()
     import msdm.algorithms      # noqa: F401
     rng = random.Random(77)
     results = {}
 
-    def detected(fn):
+    def detected(fn, *frags):
+        """fn must add a violation whose signature contains one of the fragments (the defects of the
+        pinned tree produce violations of their own, which do not count)."""
         before = len(ctx.violations)
         fn()
-        return len(ctx.violations) > before
+        return any(any(f in v[0] for f in frags) for v in ctx.violations[before:])
     # (A1) one reward returned by the derived MDP is off by one
     ac = [c for c in make_aug_cases(rng, 8, "quick") if c["rep"]["kind"] == "subclass"][:1]
     ac = [dict(ac[0], ovrs=[["absorbing"], ["reward", "state_list"]])]
@@ -1311,7 +1342,7 @@ def selftest(ctx):
     def t_aug(i, ovr, real):
         if ovr == ["absorbing"] and isinstance(real.get("reward"), list):
             real["reward"][0][0][0] += 1.0
-    results["aug: corrupted reward of the derived MDP"] = detected(lambda: judge_aug(ctx, ac, tamper=t_aug))
+    results["aug: corrupted reward of the derived MDP"] = detected(lambda: judge_aug(ctx, ac, tamper=t_aug), "C15:augment:reward")
     baseline = len(ctx.violations)
     judge_aug(ctx, ac)
     results["aug: untampered subclass case is clean"] = len(ctx.violations) == baseline
@@ -1322,14 +1353,14 @@ def selftest(ctx):
         if isinstance(real.get("plan"), dict) and "V" in real["plan"]:
             s = next(iter(real["plan"]["V"]))
             real["plan"]["V"][s] += 0.5
-    results["plan: corrupted state value"] = detected(lambda: judge_plan(ctx, pc, tamper=t_plan))
+    results["plan: corrupted state value"] = detected(lambda: judge_plan(ctx, pc, tamper=t_plan), "planning_result:value")
     # (A3) a scripted option run reports a different end state
     oc = [c for c in make_opt_cases(rng, 10, "quick") if c["term"] and c["lim"] >= 2][:2]
 
     def t_opt(i, r, real):
         if real["outcome"] == "returned":
             real["fin"] = real["fin"] % oc[i]["m"]["N"] + 1
-    results["opt: corrupted end state"] = detected(lambda: judge_opt(ctx, oc, tamper=t_opt))
+    results["opt: corrupted end state"] = detected(lambda: judge_opt(ctx, oc, tamper=t_opt), "Option.run_on:trajectory-differs")
     # (B) corrupt one logged successor; drop one event; corrupt one reported probability
     tc = make_trace_cases(rng, 30, "quick")
     reals = [trace_real(c) for c in tc]
@@ -1341,7 +1372,7 @@ def selftest(ctx):
                     return ci, ob
         return None, None
 
-    def run_trace_with(mut):
+    def run_trace_with(mut, *frags):
         import copy
         rr = copy.deepcopy(reals)
         ci, _ = pick(lambda ob: any(len(s["ev"]) >= 2 for s in ob["sims"]))
@@ -1349,21 +1380,21 @@ def selftest(ctx):
             return False
         ob = next(ob for ob in rr[ci] if ob.get("outcome") == "dist" and any(len(s["ev"]) >= 2 for s in ob["sims"]))
         mut(ob, tc[ci]["m"])
-        return detected(lambda: judge_trace(ctx, [tc[ci]], reals=[rr[ci]]))
+        return detected(lambda: judge_trace(ctx, [tc[ci]], reals=[rr[ci]]), *frags)
 
     def m_succ(ob, m):
         s = next(s for s in ob["sims"] if len(s["ev"]) >= 2)
         s["ev"][0][2] = s["ev"][0][2] % m["N"] + 1
-    results["trace: corrupted logged successor"] = run_trace_with(m_succ)
+    results["trace: corrupted logged successor"] = run_trace_with(m_succ, "successor-outside-support", "not-chained", "reward-differs", "final-record-differs")
 
     def m_drop(ob, m):
         s = next(s for s in ob["sims"] if len(s["ev"]) >= 2)
         del s["ev"][-1]
-    results["trace: dropped event"] = run_trace_with(m_drop)
+    results["trace: dropped event"] = run_trace_with(m_drop, "final-record-differs", "returned-before-terminal", "not-chained")
 
     def m_prob(ob, m):
         ob["joint"][0][3] *= 0.5
-    results["trace: corrupted reported probability"] = run_trace_with(m_prob)
+    results["trace: corrupted reported probability"] = run_trace_with(m_prob, "not-normalised", "differs-from-simulations")
     for k, v in results.items():
         print(f"  selftest {k}: {'ok' if v else 'NOT DETECTED'}")
     return all(results.values())
